@@ -89,6 +89,15 @@ def apply(p, e):
         v = np.array(t.displacement_vector, dtype=float)
         v[e[2]] = e[3]
         t.displacement_vector = v
+    elif op in ("geometry_and", "geometry_or"):
+        # the documented way to edit a region: in-place operators on the cell's geometry
+        c = p.cells.objects[e[1]]
+        s = p.surfaces.objects[e[2]]
+        half = -s if e[3] else +s
+        if op == "geometry_and":
+            c.geometry &= half
+        else:
+            c.geometry |= half
     elif op == "title":
         p.title = e[1]
     elif op == "print_in_data_block":
@@ -108,7 +117,7 @@ def free_number(rng, used, lo=1, hi=999):
 DEFAULT_KINDS = [
     "cell_number", "surface_number", "material_number", "transform_number", "importance", "importance_all",
     "volume", "atom_density", "mass_density", "surface_constant", "location", "radius", "fraction", "title",
-    "universe_number", "displacement",
+    "universe_number", "displacement", "geometry_and", "geometry_or",
 ]
 
 
@@ -127,6 +136,8 @@ def gen_edit(rng, p, kinds=None):
         k = rng.choice(pool)
         if k == "cell_number" and cells:
             return [k, rng.randrange(len(cells)), free_number(rng, {c.number for c in cells})]
+        if k in ("geometry_and", "geometry_or") and cells and surfs:
+            return [k, rng.randrange(len(cells)), rng.randrange(len(surfs)), rng.random() < 0.5]
         if k == "surface_number" and surfs:
             return [k, rng.randrange(len(surfs)), free_number(rng, {s.number for s in surfs})]
         if k == "material_number" and mats:
@@ -240,7 +251,7 @@ def affected(p0, e):
     elif op in ("importance", "importance_all", "volume", "del_volume", "universe", "fill_universe"):
         aff.add(("cell", e[1]))
         aff.add("celldata")
-    elif op in ("material", "atom_density", "mass_density"):
+    elif op in ("material", "atom_density", "mass_density", "geometry_and", "geometry_or"):
         aff.add(("cell", e[1]))
     elif op in ("surface_constant", "location", "radius", "reflecting", "white"):
         aff.add(("surface", e[1]))
